@@ -42,6 +42,7 @@
 
 extern char *__brkval;
 extern struct __freelist *__flp;
+extern int __allocation_counter;
 
 static igris::syslock lock;
 
@@ -100,6 +101,8 @@ void *realloc(void *ptr, size_t len)
         fp2 = (struct __freelist *)cp;
         fp2->sz = fp1->sz - len - sizeof(size_t);
         fp1->sz = len;
+        /* the split-off chunk was never counted by malloc() */
+        __allocation_counter++;
         free(&(fp2->nx));
         return ptr;
     }
